@@ -743,7 +743,12 @@ pub fn judge(world: &World) -> Judgement {
                         _ => {
                             let tok = find_ai_token(cond).unwrap_or_default();
                             j.ai_tokens.push(tok.clone());
-                            match world.ai.get(&tok) {
+                            // retryable statuses do not decide: the reply that ends them does
+                            let mut last = world.ai.get(&tok);
+                            while let Some(AiReply::RetryThen { then, .. }) = last {
+                                last = Some(then.as_ref());
+                            }
+                            match last {
                                 None => RuleOutcome::Ok,
                                 Some(AiReply::Text(t)) if is_ok_reply(t) => RuleOutcome::Ok,
                                 Some(AiReply::Text(t)) => RuleOutcome::Violations(vec![t.clone()]),
